@@ -161,6 +161,7 @@ fn gen(t: &mut Tape, tier: Tier) -> Scenario {
         sc.set_b("input", input);
         sc.set_b("expect", b.expect);
     }
+    opts.wrapper = t.below(2) == 1;
     opts.store(&mut sc);
     sc.set_i("rk", [RK_SIM, RK_SLICE, RK_CURSOR, RK_BUFREADER][t.below(4) as usize]);
     sc.set_i("bufcap", t.range(1, 300));
